@@ -18,6 +18,7 @@ pub mod c17;
 pub mod c18;
 pub mod c19;
 pub mod chist;
+pub mod fuzz;
 pub mod types;
 
 use crate::engine::CheckDef;
